@@ -23,18 +23,20 @@ VARIABLES l,      \* next line of the trace
           relax,  \* TRUE after a crash or interrupt: the exactness monitors (C02, C03, -k completeness) are off
           taint,  \* TRUE after a deviation attributed to a known finding: engine monitors off until the next Reset
           afterCrash, \* the previous invocation died or was interrupted
+          tw,     \* twin comparison: [mode, kind, k, sums]: summaries of the declared-variant run (C10, C11)
           viol,   \* violation records found so far
           stats   \* counters for the evidence
-vars == <<l, meta, g, L, F, FT, iv, prev, relax, taint, afterCrash, viol, stats>>
+vars == <<l, meta, g, L, F, FT, iv, prev, relax, taint, afterCrash, tw, viol, stats>>
 
 NoIv == [active |-> FALSE]
 NoPrev == [ok |-> FALSE, targets |-> {}]
+NoTw == [mode |-> 0, kind |-> "", k |-> 0, sums |-> <<>>, skip |-> FALSE]
 EmptyG == [srcs |-> <<>>, pools |-> <<>>, stmts |-> <<>>]
 Stats0 == [execs |-> 0, invokes |-> 0, starts |-> 0, nontrivial |-> 0, kf |-> 0]
 
-Init == /\ l = 1 /\ meta = [sc |-> "", run |-> 0] /\ g = EmptyG
+Init == /\ l = 1 /\ meta = [sc |-> "", run |-> 0, eskip |-> {}] /\ g = EmptyG
         /\ L = <<>> /\ F = {} /\ FT = {} /\ iv = NoIv /\ prev = NoPrev
-        /\ relax = FALSE /\ taint = FALSE /\ afterCrash = FALSE /\ viol = {} /\ stats = Stats0
+        /\ relax = FALSE /\ taint = FALSE /\ afterCrash = FALSE /\ tw = NoTw /\ viol = {} /\ stats = Stats0
 
 E == Tr[l]
 Is(name) == l <= Len(Tr) /\ E.e = name
@@ -49,11 +51,13 @@ PoolDepth(p) == IF p = "console" THEN 1
 ---------------------------------------------------------------------------
 TReset ==
   /\ Is("Reset")
-  /\ meta' = [sc |-> E.sc, run |-> E.run]
+  /\ meta' = [sc |-> E.sc, run |-> E.run, eskip |-> {}]
   /\ g' = E.g
   /\ L' = [i \in 1..Len(E.g.stmts) |-> LastNone]
   /\ F' = {} /\ FT' = {} /\ iv' = NoIv /\ prev' = NoPrev /\ relax' = FALSE /\ taint' = FALSE /\ afterCrash' = FALSE
   /\ stats' = [stats EXCEPT !.execs = @ + 1]
+  /\ tw' = IF E.tw = 1 THEN [mode |-> 1, kind |-> E.twk, k |-> 0, sums |-> <<>>, skip |-> FALSE]
+            ELSE IF E.tw = 2 THEN [tw EXCEPT !.mode = 2, !.k = 0, !.skip = FALSE] ELSE NoTw
   /\ UNCHANGED viol /\ Step
 
 TEnv ==
@@ -67,7 +71,7 @@ TEnv ==
             [] OTHER -> L
   /\ F' = IF E.op = "setstmts" THEN {} ELSE F
   /\ prev' = NoPrev
-  /\ UNCHANGED <<meta, FT, iv, relax, taint, afterCrash, viol, stats>> /\ Step
+  /\ UNCHANGED <<meta, FT, iv, relax, taint, afterCrash, tw, viol, stats>> /\ Step
 
 \* -- Invoke ----------------------------------------------------------------
 TInvoke ==
@@ -89,16 +93,26 @@ TInvoke ==
                skipped |-> {}, ticks |-> {}, stStarted |-> {}, stFinished |-> {}, cnt |-> [tot |-> 0, st |-> 0, fin |-> 0],
                interrupted |-> FALSE, killed |-> {}, partial |-> {}, startsAfterBudget |-> 0]
   /\ stats' = [stats EXCEPT !.invokes = @ + 1]
-  /\ UNCHANGED <<meta, g, L, F, FT, prev, relax, taint, afterCrash, viol>> /\ Step
+  /\ UNCHANGED <<meta, g, L, F, FT, prev, relax, taint, afterCrash, tw, viol>> /\ Step
 
 \* -- hook events from ninja ---------------------------------------------------
 BudgetLeft == iv.k = 0 \/ iv.nfail < iv.k
 PoolRoom(i) == LET p == St(g, i).pool IN
                PoolDepth(p) = 0 \/ Cardinality({r \in iv.run : St(g, r).pool = p}) < PoolDepth(p)
+\* The graph as far as it can be known now: dyndep information of files whose producer still has
+\* work to do is not available yet.
+RECURSIVE UpFrom(_, _)
+UpFrom(S, fuel) == LET nxt == S \cup UNION {DepOn(g, iv.T0, L, j) : j \in S} IN IF nxt = S \/ fuel = 0 THEN S ELSE UpFrom(nxt, fuel - 1)
+UpstreamOf(i) == UpFrom(DepOn(g, iv.T0, L, i), Len(g.stmts) + 1)
+DdPending(i) == LET s == St(g, i)  p == Prod(g, s.dd) IN
+                s.dd # "" /\ p # 0 /\ \E q \in {p} \cup UpstreamOf(p) : q \in iv.exp /\ q \notin iv.doneOK
+GKnown == [g EXCEPT !.stmts = [i \in DOMAIN g.stmts |-> IF DdPending(i) THEN [g.stmts[i] EXCEPT !.ddi = <<>>, !.ddo = <<>>] ELSE g.stmts[i]]]
 MayStart(i) ==
   /\ i \in iv.exp /\ i \notin ToS(iv.started)
+  /\ i \in Needed(GKnown, iv.T0, L, iv.targets)
   /\ i \notin Downstream(g, iv.T0, L, iv.failed)
-  /\ \A p \in Producers(g, iv.T0, L, i) : p \in iv.exp => p \in iv.doneOK
+  \* everything it transitively needs (any input kind) that had work to do is done
+  /\ \A p \in UpstreamOf(i) : p \in iv.exp => p \in iv.doneOK
   /\ PoolRoom(i)
 
 THook ==
@@ -110,7 +124,7 @@ THook ==
              THEN viol \cup {V("C06", "waits although a command is startable and a slot is free",
                                IF {i \in Ids(g) : MayStart(i)} \subseteq iv.kfT THEN "KF-FAIL-TOUCHED" ELSE "")}
              ELSE viol
-  /\ UNCHANGED <<meta, g, L, F, FT, prev, relax, taint, afterCrash, stats>> /\ Step
+  /\ UNCHANGED <<meta, g, L, F, FT, prev, relax, taint, afterCrash, tw, stats>> /\ Step
 
 TStatus ==
   /\ Is("St")
@@ -123,7 +137,7 @@ TStatus ==
                  ELSE iv
         /\ viol' = IF bad /\ E.c \in {"started", "finished"}
                    THEN viol \cup {V("C20", "progress counter exceeds its bound", "")} ELSE viol
-  /\ UNCHANGED <<meta, g, L, F, FT, prev, relax, taint, afterCrash, stats>> /\ Step
+  /\ UNCHANGED <<meta, g, L, F, FT, prev, relax, taint, afterCrash, tw, stats>> /\ Step
 
 \* -- Start ---------------------------------------------------------------------
 TStart ==
@@ -158,11 +172,11 @@ TStart ==
         /\ iv' = [iv EXCEPT !.started = Append(@, i), !.run = runNow, !.ticks = @ \cup {<<i, E.t>>}]
         /\ L' = L
   /\ stats' = [stats EXCEPT !.starts = @ + 1]
-  /\ UNCHANGED <<meta, g, F, FT, prev, relax, taint, afterCrash>> /\ Step
+  /\ UNCHANGED <<meta, g, F, FT, prev, relax, taint, afterCrash, tw>> /\ Step
 
 TEditRun ==
   /\ Is("EditRun")
-  /\ UNCHANGED <<meta, g, L, F, FT, iv, prev, relax, taint, afterCrash, viol, stats>> /\ Step
+  /\ UNCHANGED <<meta, g, L, F, FT, iv, prev, relax, taint, afterCrash, tw, viol, stats>> /\ Step
 
 StartTick(i) == LET ps == {p \in iv.ticks : p[1] = i} IN
                 IF ps = {} THEN 0 ELSE (CHOOSE p \in ps : \A q \in ps : q[2] <= p[2])[2]
@@ -183,22 +197,22 @@ TDone ==
                 ELSE L
         /\ F' = IF ok THEN F \ {i} ELSE F \cup {i}
         /\ FT' = IF ok THEN FT \ {i} ELSE IF Len(E.wrote) > 0 THEN FT \cup {i} ELSE FT \ {i}
-  /\ UNCHANGED <<meta, g, prev, relax, taint, afterCrash, viol, stats>> /\ Step
+  /\ UNCHANGED <<meta, g, prev, relax, taint, afterCrash, tw, viol, stats>> /\ Step
 
 TInterrupt ==
   /\ Is("Interrupt")
   /\ iv' = [iv EXCEPT !.interrupted = TRUE]
-  /\ UNCHANGED <<meta, g, L, F, FT, prev, relax, taint, afterCrash, viol, stats>> /\ Step
+  /\ UNCHANGED <<meta, g, L, F, FT, prev, relax, taint, afterCrash, tw, viol, stats>> /\ Step
 
 TAbort ==
   /\ Is("Abort")
   /\ iv' = IF iv.active THEN [iv EXCEPT !.killed = @ \cup {E.killed[x].s : x \in DOMAIN E.killed},
                                         !.partial = @ \cup {E.killed[x].s : x \in {y \in DOMAIN E.killed : E.killed[y].partial}}, !.run = {}] ELSE iv
-  /\ UNCHANGED <<meta, g, L, F, FT, prev, relax, taint, afterCrash, viol, stats>> /\ Step
+  /\ UNCHANGED <<meta, g, L, F, FT, prev, relax, taint, afterCrash, tw, viol, stats>> /\ Step
 
 TSkip ==
   /\ l <= Len(Tr) /\ E.e \in {"Loaded", "Scanned", "Msg", "PoolsAtEnd", "Crash", "SpawnFail", "Logs", "EndRun"}
-  /\ UNCHANGED <<meta, g, L, F, FT, iv, prev, relax, taint, afterCrash, viol, stats>> /\ Step
+  /\ UNCHANGED <<meta, g, L, F, FT, iv, prev, relax, taint, afterCrash, tw, viol, stats>> /\ Step
 
 \* -- Exit ----------------------------------------------------------------------
 HasRecWork(S) == \E i \in S : UsesDeps(St(g, i))
@@ -210,6 +224,11 @@ TExit ==
          ok == E.code = 0
          clean == CleanContent(g, T, L)
          stale == {f \in UNION {Outs(St(g, i)) : i \in {x \in iv.need : ~St(g, x).phony}} : Ct(T, f) # clean[f]}
+         skipStmts == {i \in iv.skipped : UsesDeps(St(g, i)) /\ L[i].rec # {}}
+         \* statements whose recorded dependencies were not consulted, in this or an earlier invocation of the history
+         eskip == meta.eskip \cup skipStmts
+         downSkip == Downstream(g, iv.T0, L, eskip)
+         diffBySkip(A, B) == eskip # {} /\ ((A \ B) \cup (B \ A)) \subseteq downSkip
          dev03 == IF ok THEN startedSet # iv.exp ELSE ~(startedSet \subseteq iv.exp)
          \* attribution to the known finding KF-DEPS-SKIPPED (DESIGN.md Appendix A)
          kfSkip == /\ iv.expS # iv.exp \/ iv.skipped \cap {i \in Ids(g) : L[i].rec # {}} # {}
@@ -223,16 +242,16 @@ TExit ==
                  THEN {V("C05", "a command that failed is not retried by the next build", kf)} ELSE {}
          v03 == IF exact /\ dev03
                 THEN {V("C03", IF startedSet \subseteq iv.exp THEN "a command that had to run was not run"
-                               ELSE "a command ran although nothing it depends on changed", kf)} ELSE {}
+                               ELSE "a command ran although nothing it depends on changed",
+                        IF kf # "" THEN kf ELSE IF diffBySkip(startedSet, iv.exp) THEN "KF-DEPS-SKIPPED" ELSE "")} ELSE {}
          \* stale files that lie downstream of a statement whose recorded dependencies were not consulted
-         skipStmts == {i \in iv.skipped : UsesDeps(St(g, i)) /\ L[i].rec # {}}
          staleBySkip == skipStmts # {} /\ stale \subseteq UNION {Outs(St(g, i)) : i \in Downstream(g, iv.T0, L, skipStmts)}
          kf01 == IF kf # "" THEN kf ELSE IF staleBySkip THEN "KF-DEPS-SKIPPED" ELSE ""
          v01 == IF iv.acyc /\ ok /\ ~iv.editrun /\ ~iv.dry /\ stale # {} /\ ~taint
                 THEN {V(IF afterCrash \/ relax THEN "C07" ELSE "C01", "stale output after a successful build", kf01),
                       V("C01", "stale output after a successful build", kf01)} ELSE {}
          v02 == IF prev.ok /\ prev.targets = iv.targets /\ ~iv.dry /\ ~taint /\ (startedSet # {} \/ E.mc # "nowork")
-                THEN {V("C02", "second build of the same targets was not a no-op", kf)} ELSE {}
+                THEN {V("C02", "second build of the same targets was not a no-op", IF kf # "" THEN kf ELSE IF diffBySkip(startedSet, {}) THEN "KF-DEPS-SKIPPED" ELSE "")} ELSE {}
          \* C05: exit status and what is started/finished under -k
          anyFail == iv.failed # {}
          v05a == IF anyFail /\ (ok \/ E.code \notin iv.codes) /\ ~iv.interrupted
@@ -264,37 +283,52 @@ TExit ==
                       THEN {V("C07", "interrupt: outputs or depfile of a killed depfile command were not removed", "")} ELSE {})
                 \cup (IF afterCrash /\ ~ok /\ iv.fail = <<>> /\ ~iv.interrupted /\ iv.acyc /\ ~iv.missingSrc
                       THEN {V("C07", "the build after a crash or interrupt did not succeed", "")} ELSE {})
-         newv == v03 \cup v01 \cup v02 \cup v05f \cup v05a \cup v05b \cup v05c \cup v05d \cup v05e \cup v06 \cup v16 \cup v20 \cup v07
+         \* twin comparison (C10 / C11): same commands, same result, same final contents as the variant
+         \* with the discovered information written into the manifest
+         outsNow == [f \in {x \in AllOuts(g) : \A i \in Ids(g) : St(g, i).mkdd # x} |-> Ct(T, f)]
+         sum == [started |-> startedSet, ok |-> ok, missing |-> E.mc = "missing", outs |-> outsNow]
+         twp == IF tw.kind = "dyn" THEN "C11" ELSE "C10"
+         ref == tw.sums[tw.k + 1]
+         cmp == tw.mode = 2 /\ ~tw.skip /\ tw.k + 1 <= Len(tw.sums) /\ ~ref.missing /\ ~taint
+         vtw == IF cmp /\ (ref.started # sum.started \/ ref.ok # sum.ok \/ (ok /\ \E f \in DOMAIN ref.outs : f \in DOMAIN sum.outs /\ ref.outs[f] # sum.outs[f]))
+                THEN {V(twp, IF ref.started # sum.started THEN "different commands run than with the discovered information written into the manifest"
+                             ELSE IF ref.ok # sum.ok THEN "different build result than with the discovered information written into the manifest"
+                             ELSE "different final contents than with the discovered information written into the manifest",
+                        IF skipStmts # {} \/ diffBySkip(ref.started, sum.started) THEN "KF-DEPS-SKIPPED" ELSE "")} ELSE {}
+         newv == vtw \cup v03 \cup v01 \cup v02 \cup v05f \cup v05a \cup v05b \cup v05c \cup v05d \cup v05e \cup v06 \cup v16 \cup v20 \cup v07
          kfHit == \E x \in newv : x.kf # ""
      IN /\ viol' = viol \cup newv
         /\ relax' = (relax \/ iv.interrupted)
         /\ taint' = (taint \/ kfHit)
         /\ afterCrash' = iv.interrupted
+        /\ tw' = IF tw.mode = 1 THEN [tw EXCEPT !.sums = Append(@, sum), !.k = @ + 1]
+                  ELSE IF tw.mode = 2 THEN [tw EXCEPT !.k = @ + 1, !.skip = @ \/ (tw.k + 1 <= Len(tw.sums) /\ ref.missing)] ELSE tw
         /\ prev' = [ok |-> ok /\ ~iv.editrun /\ ~iv.dry /\ ~kfHit, targets |-> iv.targets]
         /\ stats' = [stats EXCEPT !.nontrivial = @ + (IF startedSet # {} THEN 1 ELSE 0),
                                   !.kf = @ + (IF kfHit THEN 1 ELSE 0)]
   /\ iv' = NoIv
-  /\ UNCHANGED <<meta, g, L, F, FT>> /\ Step
+  /\ meta' = [meta EXCEPT !.eskip = @ \cup {i \in iv.skipped : UsesDeps(St(g, i)) /\ L[i].rec # {}}]
+  /\ UNCHANGED <<g, L, F, FT>> /\ Step
 
 \* the process died (crash point) or ended abnormally
 TDied ==
   /\ Is("Died")
   /\ iv' = NoIv /\ relax' = TRUE /\ prev' = NoPrev /\ afterCrash' = TRUE
   /\ L' = [i \in DOMAIN L |-> IF iv.active /\ i \in iv.doneOK THEN [L[i] EXCEPT !.unsure = TRUE] ELSE L[i]]
-  /\ UNCHANGED <<meta, g, F, FT, taint, viol, stats>> /\ Step
+  /\ UNCHANGED <<meta, g, F, FT, taint, tw, viol, stats>> /\ Step
 
 TAbnormal ==
   /\ l <= Len(Tr) /\ E.e \in {"Abnormal", "Bad"}
   /\ viol' = viol \cup {V("C06", "invocation ended abnormally (signal, watchdog or harness inconsistency)", "")}
   /\ iv' = NoIv /\ relax' = TRUE /\ prev' = NoPrev
-  /\ UNCHANGED <<meta, g, L, F, FT, taint, afterCrash, stats>> /\ Step
+  /\ UNCHANGED <<meta, g, L, F, FT, taint, afterCrash, tw, stats>> /\ Step
 
 \* all lines consumed: write the result and stop
 TFlush ==
   /\ l = Len(Tr) + 1
   /\ ndJsonSerialize(OutFile, <<[stats |-> stats, viol |-> SetToSeq(viol)]>>)
   /\ l' = l + 1
-  /\ UNCHANGED <<meta, g, L, F, FT, iv, prev, relax, taint, afterCrash, viol, stats>>
+  /\ UNCHANGED <<meta, g, L, F, FT, iv, prev, relax, taint, afterCrash, tw, viol, stats>>
 
 Next == TReset \/ TEnv \/ TInvoke \/ THook \/ TStatus \/ TStart \/ TEditRun \/ TDone \/ TInterrupt
         \/ TAbort \/ TSkip \/ TExit \/ TDied \/ TAbnormal \/ TFlush
